@@ -1,8 +1,8 @@
 #!/verif/.venv/bin/python
 # Replay of a solver counterexample against the unmodified code (no shims).
-# property=C17 kernel=config label=k3:config_roundtrip_completes
+# property=C17 kernel=noise label=k1:roundtrip_field:runs
 import sys
 sys.path[:0] = ['/repo' + "/pulser-core", '/repo' + "/pulser-simulation", "/verif"]
 from symx.replay import replay
-sys.exit(replay(check='checks.c17', kernel='config', shape={'obs': ['bitstrings'], 'times': [True], 'noise': 'eff'},
-                assignment={'o0_t0': '0/1', 'o0_t1': '1/2', 'eff_rate': '1152921504606847/1152921504606846976'}, label='k3:config_roundtrip_completes'))
+sys.exit(replay(check='checks.c17', kernel='noise', shape={'params': ['p_false_pos'], 'runs': True},
+                assignment={'p_false_pos': '1/1'}, label='k1:roundtrip_field:runs'))
